@@ -336,6 +336,9 @@ def check(run: Run) -> None:
 
     check_quote_str_only(run, "R15.6")
     check_bool_before_int(run, "R15.6", [("core.emitter", "emit_value")])
+    from .c04 import check_number_spelling
+
+    check_number_spelling(run, "R15.8")
     check_seal_is_last(run, am, seal)
 
     # ---------------------------------------------------------------- R15.5
